@@ -408,3 +408,72 @@ pub fn coq_css_table(c: &CosmeticDump) -> String {
     }
     format!("(css_table [{}])", v.join("; "))
 }
+
+// ------------------------------------------------------------------ digest printers (C08_Model.digest)
+pub fn mp_int<T: std::fmt::Display>(n: T) -> String {
+    format!("(MInt {}%N)", n)
+}
+pub fn mp_str(s: &str) -> String {
+    format!("(MStr {})", hxs(s))
+}
+pub fn mp_arr(v: &[String]) -> String {
+    format!("(MArr [{}])", v.join("; "))
+}
+pub fn mp_map(v: &[(String, String)]) -> String {
+    format!("(MMap [{}])", v.iter().map(|(k, x)| format!("({}, {})", k, x)).collect::<Vec<_>>().join("; "))
+}
+pub fn mp_opt(o: &Option<String>) -> String {
+    match o {
+        None => "MNil".into(),
+        Some(s) => mp_str(s),
+    }
+}
+fn mp_optl(o: &Option<Vec<u64>>) -> String {
+    match o {
+        None => "MNil".into(),
+        Some(v) => mp_arr(&v.iter().map(mp_int).collect::<Vec<_>>()),
+    }
+}
+pub fn mp_rule(f: &FilterDump) -> String {
+    let part = match f.filter_kind {
+        "empty" => mp_map(&[(mp_int(0), "MNil".to_string())]),
+        "simple" => mp_map(&[(mp_int(1), mp_str(&f.filter[0]))]),
+        _ => mp_map(&[(mp_int(2), mp_arr(&f.filter.iter().map(|s| mp_str(s)).collect::<Vec<_>>()))]),
+    };
+    mp_arr(&[
+        mp_int(f.id), mp_int(f.mask), part, mp_opt(&f.modifier_option), mp_opt(&f.hostname), mp_opt(&f.tag),
+        mp_optl(&f.opt_domains), mp_optl(&f.opt_not_domains), mp_opt(&f.raw_line),
+    ])
+}
+fn mp_buckets(l: &[(u64, Vec<FilterDump>)]) -> String {
+    mp_map(&l.iter().map(|(k, b)| (mp_int(k), mp_arr(&b.iter().map(mp_rule).collect::<Vec<_>>()))).collect::<Vec<_>>())
+}
+fn mp_strs(v: &[String]) -> String {
+    mp_arr(&v.iter().map(|s| mp_str(s)).collect::<Vec<_>>())
+}
+fn mp_bins(m: &[(u64, Vec<String>)]) -> String {
+    mp_map(&m.iter().filter(|(_, v)| !v.is_empty()).map(|(k, v)| (mp_int(k), mp_strs(v))).collect::<Vec<_>>())
+}
+fn mp_smap(m: &[(String, Vec<String>)]) -> String {
+    mp_map(&m.iter().map(|(k, v)| (mp_str(k), mp_strs(v))).collect::<Vec<_>>())
+}
+/// The digest of the engine's current state, containers in sorted order (the dump hooks sort).
+pub fn mp_digest(e: &Engine) -> String {
+    let d = dump_engine_blocker(e);
+    let c = dump_cosmetic(e);
+    let get = |name: &str| d.lists.iter().find(|(n, _)| *n == name).map(|(_, l)| l.clone()).unwrap_or_default();
+    let inj = mp_map(
+        &c.inject_script.iter().filter(|(_, v)| !v.is_empty())
+            .map(|(k, v)| (mp_int(k), mp_arr(&v.iter().map(|(s, p)| mp_arr(&[mp_str(s), mp_int(p)])).collect::<Vec<_>>())))
+            .collect::<Vec<_>>(),
+    );
+    mp_arr(&[
+        mp_buckets(&get("csp")), mp_buckets(&get("exceptions")), mp_buckets(&get("importants")), mp_buckets(&get("redirects")),
+        mp_buckets(&get("removeparam")), mp_buckets(&get("filters_tagged")), mp_buckets(&get("filters")), mp_buckets(&get("generic_hide")),
+        mp_strs(&d.tags_enabled), mp_arr(&d.tagged_filters_all.iter().map(mp_rule).collect::<Vec<_>>()),
+        format!("(MBool {})", cbool(d.enable_optimizations)),
+        mp_strs(&c.simple_class_rules), mp_strs(&c.simple_id_rules), mp_smap(&c.complex_class_rules), mp_smap(&c.complex_id_rules),
+        mp_bins(&c.hide), mp_bins(&c.unhide), inj, mp_bins(&c.uninject_script), mp_bins(&c.procedural_action),
+        mp_bins(&c.procedural_action_exception), mp_strs(&c.misc_generic_selectors),
+    ])
+}
